@@ -93,6 +93,7 @@ fn main() {
             suites_sched::inline_waker(&mut em);
             if shard0 {
                 suites_env::idle_runtime_producer(&mut em);
+                suites_env::large_chunk_wake(&mut em);
             }
         }
         "C11" => {
